@@ -151,6 +151,20 @@ func c17Cases(level int) []SCase {
 			}
 		}
 	}
+	// a type that is called like the local helper type of the generated methods (Plain), declared next to an object that collects typed
+	// additional properties (whose clean-up block names that helper type): both emitters must pick the same names
+	for _, n := range []string{"plain", "Plain", "Plain_0"} {
+		for _, constrained := range []bool{false, true} {
+			pd := J{"type": "object", "properties": J{"k": J{"type": "string"}}}
+			if constrained {
+				pd = J{"type": "object", "properties": J{"k": J{"type": "string", "minLength": 1}}, "required": A{"k"}}
+			}
+			sch := J{"type": "object", "properties": J{"name": J{"type": "string", "minLength": 2}, "p": J{"$ref": "#/$defs/" + n}}, "required": A{"name"},
+				"additionalProperties": J{"type": "string"}, "$defs": J{n: pd}}
+			cases = append(cases, SCase{ID: fmt.Sprintf("C17/helper-type-name/%s/constrained=%v", n, constrained), Schema: sch, Cfg: baseCfg(),
+				Axes: map[string]string{"pos": "helper-type-name", "leaf": n}})
+		}
+	}
 	out := cases[:0:0]
 	for _, c := range cases {
 		c.Cfg.ExtraImports = true
